@@ -39,7 +39,8 @@ func (t *XMPPTransport) Connect() (string, error) {
 	t.isSecure = false
 	t.conn, err = net.DialTimeout("tcp", t.Config.Address, time.Duration(t.Config.ConnectTimeout)*time.Second)
 	if err != nil {
-		return "", NewConnError(err, true)
+		// The server may just be down or restarting: this is worth another try.
+		return "", NewConnError(err, false)
 	}
 
 	t.closeChan = make(chan stanza.StreamClosePacket)
@@ -52,7 +53,7 @@ func (t *XMPPTransport) Connect() (string, error) {
 func (t *XMPPTransport) StartStream() (string, error) {
 	if _, err := fmt.Fprintf(t, t.openStatement, t.Config.Domain); err != nil {
 		t.Close()
-		return "", NewConnError(err, true)
+		return "", NewConnError(err, false)
 	}
 
 	sessionID, err := stanza.InitStream(t.GetDecoder())
